@@ -20,6 +20,7 @@ registry! {
     h_graph::h_graph_n3_s2,
     h_graph::h_graph_twin,
     h_graph::h_buffer_n3,
+    h_graph::h_graph_small,
     h_panic::h_panic_n2,
     h_panic::h_panic_n3,
     h_panic::h_panic_n3_hist,
@@ -27,6 +28,7 @@ registry! {
     h_panic::h_panic_twin,
     h_panic::h_panic_n4_trace,
     h_panic::h_panic_n4_q,
+    h_panic::h_panic_fin_n2,
     h_fin::h_fin_n2,
     h_fin::h_fin_n3,
     h_fin::h_fin_n3_stash,
@@ -44,6 +46,7 @@ registry! {
     h_api::h_nest_n2_full,
     h_api::h_nest_twin,
     h_count::h_sat_strong,
+    h_count::h_sat_inlist,
     #[cfg(feature = "weak-ptrs")]
     h_count::h_sat_weak,
     h_count::h_counter_kernel,
@@ -62,6 +65,8 @@ registry! {
     h_clean::h_clean_twin,
     #[cfg(feature = "cleaners")]
     h_clean::h_clean_panic,
+    #[cfg(feature = "cleaners")]
+    h_clean::h_clean_helper,
     h_layout::h_layout_grid,
     h_layout::h_layout_zst,
     h_layout::h_layout_small,
@@ -133,4 +138,6 @@ registry! {
     h_weak::h_weak_cb_ring3,
     #[cfg(feature = "weak-ptrs")]
     h_weak::h_weak_twin,
+    #[cfg(feature = "weak-ptrs")]
+    h_weak::h_weak_helper,
 }
